@@ -36,7 +36,7 @@ CONFIG = {
     'internal_monitors': ['c02.atoms'],
     'deciding': ['c02.modelcheck'],
     'shards': {'quick': 16, 'thorough': 16},
-    'hashseeds': {'quick': 4, 'thorough': 8},
+    'hashseeds': {'quick': 8, 'thorough': 16},
     'min_evals': {'quick': {'c02.modelcheck': 15000, 'c02.atoms': 15000,
                             'c02.certificate': 5000},
                   'thorough': {'c02.modelcheck': 300000}},
@@ -45,7 +45,7 @@ CONFIG = {
     'must_sig': ['reach:_build_atoms:A_tail.append( atom | {Lang.Not(Lang.X(phi))',
                  'reach:_build_atoms:new_atom = atom | set([phi, Lang.X(LNot(sf))])',
                  'scc:self_fulfilling', 'scc:rejected_not_self_fulfilling',
-                 'style:text', 'root:U', 'root:R', 'root:G'],
+                 'style:text', 'root:U', 'root:R', 'root:G', 'block:every_seed'],
     'rule': ('cases = (Kripke structure, LTL formula A g, presentation '
              'style); enumerated: class representatives of all total '
              'structures with <=2 states (quick; <=3 thorough) over {p,q} x '
@@ -358,12 +358,34 @@ def run(ctx):
             run_case(nk, g, i, K)
             i += 1
         _enum[0] = False
+    # a fixed block run by EVERY worker, i.e. under every hash seed of the
+    # run: the closure order of the tableau is a function of string hashes
+    blk = [NK(range(3), [0b010, 0b100, 0b001], [{'p'}, set(), {'q'}]),
+           NK(range(4), [0b0010, 0b0101, 0b1000, 0b1000],
+              [{'p'}, {'p', 'q'}, set(), {'q'}]),
+           NK(range(2), [0b11, 0b01], [{'p'}, {'q'}])]
+    for bi, nk in enumerate(blk):
+        for gi, g in enumerate(hf):
+            if (bi + gi) % 2 == ctx.shard % 2:
+                run_case(nk, g, 3 * gi)            # object style
+                LOG.sig['block:every_seed'] += 1
     for k in range(nrandom):
         nk = gen.random_structure(r, 5)
         g = gen.random_ltl_path(r, r.randint(1, 3), max_temporal=4)
         if not ctx.mine(k):
             continue
-        run_case(nk, g, i)
+        # state and atom naming variety (hash order depends on the names)
+        if k % 3 == 1:
+            ren = {'p': 'alpha_long_atom_name', 'q': 'b', 'r': 'Rho_3'}
+            from ..neutral import rename_atoms
+            g = rename_atoms(g, ren)
+            nk = NK(nk.states, nk.succ,
+                    [frozenset(ren[a] for a in l) for l in nk.labels])
+        if k % 4 == 2:
+            nk = NK(['s%d' % i for i in range(nk.n)], nk.succ, nk.labels)
+        elif k % 4 == 3:
+            nk = NK([(i, 't') for i in range(nk.n)], nk.succ, nk.labels)
+        run_case(nk, g, i, mcwork.kripke_of(nk, list(nk.states)))
         i += 1
     LOG.nontrivial_extra += LOG.counters.pop('nontrivial_in_scope', 0)
     ctx.extra['reach'] = probes.result()
